@@ -415,7 +415,10 @@ POLICIES = [
     {'kind': 'pctc', 'k': 1, 'est_crit': 60}, {'kind': 'pctc', 'k': 1, 'est_crit': 250},
     {'kind': 'pctc', 'k': 2, 'est_crit': 250}, {'kind': 'pctc', 'k': 2, 'est_crit': 1000},
 ]
-TWIN_POLICIES = [p for p in POLICIES if p['kind'] == 'pctc'] * 2 + [
+POLICIES += [{'kind': 'pcta', 'k': 1, 'est': 40}, {'kind': 'pcta', 'k': 2, 'est': 150}]
+TWIN_POLICIES = [p for p in POLICIES if p['kind'] == 'pctc'] + [
+    {'kind': 'pcta', 'k': 1, 'est': 30}, {'kind': 'pcta', 'k': 1, 'est': 100}, {'kind': 'pcta', 'k': 2, 'est': 100},
+    {'kind': 'pcta', 'k': 2, 'est': 300}, {'kind': 'pcta', 'k': 3, 'est': 300}] + [
     {'kind': 'crit', 'p_crit': 0.3, 'p_base': 0.002}, {'kind': 'walk', 'p': 0.02}]
 
 
@@ -575,6 +578,9 @@ def gen_trace(rng, tier='quick', crit_names=(), arm=None):
     if mirror_with is None and n_callers >= 2 and rng.random() < 0.3 and not any(a.get('graded') for a in algebras):
         twins = True
         callers[1] = twin_of(rng, callers[0], algebras, pools)
+        if rng.random() < 0.5:
+            # name-keyed state only matters on the paths that resolve functions by name
+            algebras[0]['wrapper'] = 'stub'
     faults = []
     fault_arm = rng.random() < 0.5 if arm is None else arm.get('faults', False)
     wrapper_faults = []
